@@ -36,4 +36,10 @@ def handle (fs : List (String × String)) : String := Id.run do
     let ok := diffs.isEmpty
     return s!"{if ok then "agree" else "DISAGREE"} ok nt=1 br=scale-{fn}-points {match diffs.head? with | some (n, v) => s!"n={n}:impl={v},model={fnVal fn mult interval n}" | none => ""}"
 
+/-- lock-order stress (`<prop> lockstir` lines): every goroutine came back -/
+def handleLockStir (fs : List (String × String)) : String :=
+  let stalled := (getNat fs "stalled").getD 0
+  if stalled == 0 then s!"agree ok nt=1 br=lockstir "
+  else s!"DISAGREE BAD:deadlock-between-membership-updates-and-broadcast-retrieval:{stalled}-goroutines-never-came-back nt=1 br=lockstir "
+
 end Swim.Drv.Scale
